@@ -193,7 +193,7 @@ HOSTILE = [
     ('prec=9,rounding=ROUND_HALF_UP', dict(prec=9, rounding=_decimal.ROUND_HALF_UP)),
     ('rounding=ROUND_FLOOR,traps=FloatOperation', dict(rounding=_decimal.ROUND_FLOOR, traps=[_decimal.FloatOperation, _decimal.InvalidOperation,
                                                                                              _decimal.DivisionByZero, _decimal.Overflow])),
-    ('prec=5,rounding=ROUND_CEILING', dict(prec=5, rounding=_decimal.ROUND_CEILING)),
+    ('prec=7,rounding=ROUND_CEILING', dict(prec=7, rounding=_decimal.ROUND_CEILING)),
 ]
 AMB = {'on': False, 'n': 0, 'current': None, 'force': None, 'period': 5,
        'ctxs': [(n, _decimal.Context(**kw)) for n, kw in HOSTILE]}
